@@ -458,6 +458,32 @@ func c12Edges(x *c12ctx, jr *rand.Rand, idx int) {
 		{"three squares with a=4 k=4*1-2 (honest shape)", func() *gabi.ProofD {
 			return refRangeProof(x, cred, []int{1}, 2, mm, 1, 4, bi(2), 8, threeOf(bi(4*m-2)), ctx, nonce, 2)
 		}},
+		// three-square descriptors that no honest prover emits (k not 2 mod 4) but that state TRUE relations exactly at the boundary:
+		// whatever the library then reports or affirms must still be true for m
+		{"three squares sign -1 k=4m (4m <= 4m)", func() *gabi.ProofD {
+			return refRangeProof(x, cred, []int{1}, 2, mm, -1, 4, bi(4*m), 8, threeOf(bi(0)), ctx, nonce, 2)
+		}},
+		{"three squares sign -1 k=4m+1", func() *gabi.ProofD {
+			return refRangeProof(x, cred, []int{1}, 2, mm, -1, 4, bi(4*m+1), 8, threeOf(bi(1)), ctx, nonce, 2)
+		}},
+		{"three squares sign -1 k=4m+3", func() *gabi.ProofD {
+			return refRangeProof(x, cred, []int{1}, 2, mm, -1, 4, bi(4*m+3), 8, threeOf(bi(3)), ctx, nonce, 2)
+		}},
+		{"three squares sign +1 k=4m (4m >= 4m)", func() *gabi.ProofD {
+			return refRangeProof(x, cred, []int{1}, 2, mm, 1, 4, bi(4*m), 8, threeOf(bi(0)), ctx, nonce, 2)
+		}},
+		{"three squares sign +1 k=4m-1", func() *gabi.ProofD {
+			return refRangeProof(x, cred, []int{1}, 2, mm, 1, 4, bi(4*m-1), 8, threeOf(bi(1)), ctx, nonce, 2)
+		}},
+		{"three squares sign +1 k=4m-3", func() *gabi.ProofD {
+			return refRangeProof(x, cred, []int{1}, 2, mm, 1, 4, bi(4*m-3), 8, threeOf(bi(3)), ctx, nonce, 2)
+		}},
+		{"four squares factor 3 sign -1 k=3m (boundary)", func() *gabi.ProofD {
+			return refRangeProof(x, cred, []int{1}, 2, mm, -1, 3, bi(3*m), 128, []*big.Int{bi(0), bi(0), bi(0), bi(0)}, ctx, nonce, 2)
+		}},
+		{"four squares factor 3 sign +1 k=3m-2", func() *gabi.ProofD {
+			return refRangeProof(x, cred, []int{1}, 2, mm, 1, 3, bi(3*m-2), 128, []*big.Int{bi(1), bi(1), bi(0), bi(0)}, ctx, nonce, 2)
+		}},
 		{"two squares", func() *gabi.ProofD {
 			return refRangeProof(x, cred, []int{1}, 2, mm, 1, 1, sub(bi(m), bi(5)), 128, []*big.Int{bi(1), bi(2)}, ctx, nonce, 2)
 		}},
